@@ -240,11 +240,23 @@ class HoistLiterals(NodeVisitor):
             return self.generic_visit(node)
 
         for target in node.targets:
-            if isinstance(target, ast.Name) and target.id == '__slots__':
-                # This is a __slots__ assignment, don't hoist the literals
+            for name in ast.walk(target):
+                if isinstance(name, ast.Name) and name.id == '__slots__':
+                    # This is a __slots__ assignment, don't hoist the literals
+                    return None
+
+        return self.generic_visit(node)
+
+    def visit_AnnAssign(self, node):
+        if self._ignore_slots and isinstance(node.namespace, ast.ClassDef):
+            if isinstance(node.target, ast.Name) and node.target.id == '__slots__':
+                # This is an annotated or augmented __slots__ assignment, don't hoist the literals
                 return None
 
         return self.generic_visit(node)
+
+    def visit_AugAssign(self, node):
+        return self.visit_AnnAssign(node)
 
 
 def rename_literals(module):
